@@ -135,7 +135,8 @@ def small_inputs(rng, n):
     lines = []
     alph = b'xyzhklabcXYZ+-*/.,0123456789 _()\'"\t;:mPRIFCABnduvw\n\r\x00\xff\x80>*|[]{}=<'
     seeds = {
-        'triplet': [b'x,y,z', b'-y,x-y,z+1/3', b'1/2+x,y,-z', b'h,k,l', b'a/2+b/2,a/2-b/2,-c', b'x+0.25,y,z'],
+        'triplet': [b'x,y,z', b'-y,x-y,z+1/3', b'1/2+x,y,-z', b'h,k,l', b'a/2+b/2,a/2-b/2,-c', b'x+0.25,y,z', b'1000001x,y,z',
+                    b'276447231x,y,z', b'x,y,z+99999999999', b'1000000*x+1000000*x+1000000*x+1000000*x+1000000*x,y,z', b'999999.5x,y,z'],
         'hall': [b'P 2yb', b'-P 2ac 2ab', b'F 4d 2 3', b'P 31 2"', b'-I 4bd 2c 3', b'R 3 -2"c', b'P 2 2 (0 0 1)', b'C 2y (x+1/4,y+1/4,z)'],
         'sgname': [b'P 21 21 21', b'R 3:H', b'C 1 2 1', b'P21/c', b'F d -3 m:2', b'I4(1)/amd', b'19', b'H3', b'B 2'],
         'sel': [b'/1/A/10-20/CA[C]:A', b'//*/(ALA,GLY)', b'A/10.A-20.B/O*', b'/1/*//N,C;q<0.5;b>10', b'[C,N]', b';polymer', b'!/1'],
